@@ -37,6 +37,12 @@ THEOREMS = [
     "Verif.C06.scan_pixel_counts",
     "Verif.C06.down_with_entry",
     "Verif.C06.cropF_refines_crop",
+    # deepening round D
+    "Verif.C06.getitem_validation",
+    "Verif.C06.getitem_resolves",
+    "Verif.C06.slice_window",
+    "Verif.C06.kwf_starts_sorted",
+    "Verif.C06.getitem_all",
 ]
 RULE = (
     "kymographs and scans built from generated info waves (P<=5 pixels, <=6 lines/frames, k<=3 samples per pixel, "
@@ -152,7 +158,27 @@ def kop_token(op):
         return f"downr:{op[1]}:{op[2]}:{op[3]}"
     if k == "kbp":
         return f"kbp:{enc_frac(op[1])}"
+    if k in ("get", "getstep"):
+        return f"{k}:{enc_kbound(op[1])}:{enc_kbound(op[2])}"
+    if k == "scalar":
+        return "scalar"
     raise ValueError(op)
+
+
+def enc_kbound(b):
+    """a bound of kymo[a:b] as written by the user: None, an integer timestamp, or a time string (sent as code points:
+    the model parses the string itself)"""
+    if b is None:
+        return "N"
+    if isinstance(b, str):
+        return "s" + ".".join(str(ord(c)) for c in b)
+    return str(int(b))
+
+
+def kymo_window(case):
+    """[start, stop) of the source kymograph: that of its info wave"""
+    start = case.get("start", bc.START)
+    return start, start + len(layout_of(case)) * case["dt"]
 
 
 def sop_token(op):
@@ -178,7 +204,8 @@ def ops(case):
         st = case["layout"]["P"] * case["layout"]["k"] * case["dt"]
         head = (
             f"c06.kymo [{';'.join(','.join(f'{v}:{a}:{b}' for v, a, b in row) for row in img)}] "
-            f"{case['dt']} {enc_rat(px)} 0 {enc_rat(px)} {lt}/1 {st}/1 {case['layout']['k'] * case['dt']}"
+            f"{case['dt']} {enc_rat(px)} 0 {enc_rat(px)} {lt}/1 {st}/1 {case['layout']['k'] * case['dt']} "
+            f"{kymo_window(case)[0]} {kymo_window(case)[1]}"
         )
         return [head + "".join(" " + kop_token(o) for o in case["program"])]
     frames = scan_reference(case)
@@ -215,6 +242,12 @@ def apply_kop(k, op):
         return k.downsampled_by(time_factor=op[2], position_factor=op[3], reduce={"max": np.max, "min": np.min, "ptp": np.ptp}[op[1]])
     if n == "kbp":
         return k.calibrate_to_kbp(float(Fraction(op[1])))
+    if n == "get":  # the item as the user writes it: None / integer timestamps / time strings
+        return k[op[1] : op[2]]
+    if n == "getstep":
+        return k[op[1] : op[2] : 2]
+    if n == "scalar":
+        return k[op[1]]
     raise ValueError(op)
 
 
@@ -278,7 +311,8 @@ def show_kymo(k):
     return (
         f"view img=[{rows}] ranges={rs} px={enc_rat(float(k.pixelsize[0]))} unit={unit} "
         f"pxum={'N' if pxum is None else enc_rat(float(pxum))} linetime={enc_rat(float(k.line_time_seconds))} "
-        f"ppl={int(k.pixels_per_line)} offset={offset} absent={absent_shape(k.get_image('green'))} pt={pt}"
+        f"ppl={int(k.pixels_per_line)} offset={offset} absent={absent_shape(k.get_image('green'))} pt={pt} "
+        f"start={int(k.start)} stop={int(k.stop)}"
     )
 
 
@@ -381,6 +415,26 @@ def agree(case, i, ia, ma):
 
 # ------------------------------------------------------------------ oracle: the NumPy operation on the source image
 
+_UNIT_NS = {"d": 86400 * 10**9, "h": 3600 * 10**9, "m": 60 * 10**9, "s": 10**9, "ms": 10**6, "us": 10**3, "ns": 1}
+_UNIT_ORDER = ["d", "h", "m", "s", "ms", "us", "ns"]
+
+
+def plain_time_string_ns(text):
+    """nanoseconds meant by a time string of the plain documented form `[-]<number><unit>[ <number><unit>…]` with the
+    units in decreasing order (each term truncated to whole ns); None for anything else (not judged by the oracle)"""
+    import re
+
+    m = re.fullmatch(r"(-?)((?:\d*\.?\d+(?:ms|us|ns|d|h|m|s)(?: |$))+)", text)
+    if not m or text.endswith(" "):
+        return None
+    terms = re.findall(r"(\d*\.?\d+)(ms|us|ns|d|h|m|s)", m.group(2))
+    order = [_UNIT_ORDER.index(u) for _, u in terms]
+    if order != sorted(set(order)):
+        return None
+    total = sum(int(Fraction(v) * _UNIT_NS[u]) for v, u in terms)
+    return -total if m.group(1) else total
+
+
 
 def oracle(case, ia):
     ans = ia[0]
@@ -396,6 +450,8 @@ def oracle(case, ia):
         status = "view"
         tf_total = 1
         import math
+        win = kymo_window(case)  # [start, stop) of the object a time string is relative to; None once it was sliced
+        first_start = None  # start of the first line of the latest time slice
 
         def cur_ranges():
             return [(int(tmn[0, j]), int(tmx[:, j].max()) + case["dt"]) for j in range(ref.shape[1])]
@@ -411,6 +467,31 @@ def oracle(case, ia):
                     status = "empty"
                     break
                 ref, tmn, tmx = ref[:, keep], tmn[:, keep], tmx[:, keep]
+                first_start, win = int(tmn[0, 0]), None
+            elif n in ("scalar", "getstep"):
+                status = "IndexError"  # refused whatever the state of the kymograph
+                break
+            elif n == "get":
+                if processed:
+                    status = "NotImplementedError"
+                    break
+                bounds = []
+                for bnd, open_end in ((op[1], -math.inf), (op[2], math.inf)):
+                    if bnd is None:
+                        bounds.append(open_end)  # an open bound excludes nothing
+                    elif isinstance(bnd, str):
+                        ns_ = plain_time_string_ns(bnd)
+                        if ns_ is None or win is None:
+                            return None  # not of the plain form, or relative to a slice whose stop the text leaves open
+                        bounds.append(win[0] + ns_ if ns_ >= 0 else win[1] + ns_)
+                    else:
+                        bounds.append(bnd)
+                keep = [j for j, (t0, _) in enumerate(cur_ranges()) if bounds[0] <= t0 < bounds[1]]
+                if not keep:
+                    status = "empty"
+                    break
+                ref, tmn, tmx = ref[:, keep], tmn[:, keep], tmx[:, keep]
+                first_start, win = int(tmn[0, 0]), None
             elif n in ("crop", "cropf"):
                 lo, hi = Fraction(op[1]), Fraction(op[2])
                 if lo < 0 or hi < 0:
@@ -477,6 +558,17 @@ def oracle(case, ia):
             wr = "[" + ",".join(f"{a}:{b}" for a, b in cur_ranges()) + "]"
             if f["ranges"] != wr:
                 return f"line ranges {f['ranges'][:200]} but the selected lines/pixels span {wr[:200]}"
+        # the object's own time window: contains every line it shows; a time slice starts with its first line and never
+        # reaches beyond its source
+        w0, w1 = kymo_window(case)
+        if not (w0 <= int(f["start"]) <= int(f["stop"]) <= w1):
+            return f"start/stop {f['start']}/{f['stop']} not inside the source's window {w0}/{w1}"
+        if tf_total == 1 and not any(o[0] == "flip" for o in case["program"]) and tmn[0, 0] > 0:
+            rr = cur_ranges()
+            if int(f["start"]) > rr[0][0] or int(f["stop"]) < rr[-1][1]:
+                return f"start/stop {f['start']}/{f['stop']} do not contain the lines shown, which span {rr[0][0]}..{rr[-1][1]}"
+        if first_start is not None and int(f["start"]) != first_start:
+            return f"start {f['start']} of a time slice is not the start {first_start} of its first line"
         # pixel time: that of the source times the position binning (every pixel of the generated info waves has the
         # same number of samples); gone with the per-pixel timestamps after binning in time; a processed kymograph
         # with a single pixel row cannot report one
@@ -656,7 +748,42 @@ def kymo_alphabet(case, rng=None, full=True):
             ops_.append(["downr", red, tf, pf])
     ops_.append(["kbp", str(Fraction(P) / 4)])
     ops_.append(["kbp", str(Fraction(P) * 2)])
+    ops_.extend(kymo_item_alphabet(case, ranges, rng if not full else None))
     return ops_
+
+
+def kymo_item_alphabet(case, ranges, rng=None):
+    """kymo[item] as a user writes it: None bounds, integer timestamps, time strings counted from the start or back from
+    the stop of the kymograph (on / one ns beside line starts; plain, decimal, composite, odd spacing, malformed), slices
+    with a step and scalar items (refused)"""
+    w0, w1 = kymo_window(case)
+    lines = list(range(len(ranges)))
+    if len(lines) > 3:
+        lines = [0, 1, len(ranges) - 1] if rng is None else sorted(rng.sample(lines, 3))
+    bounds = [None]
+    for j in lines:
+        a = ranges[j][0]
+        off, back = a - w0, w1 - a
+        forms = [f"{off}ns", f"{off // 1000}.{off % 1000:03d}us", f"{off // 1000}us {off % 1000}ns", f"{off + 1}ns",
+                 f"-{back}ns", f"-{back // 1000}.{back % 1000:03d}us", f"-{back - 1}ns", a]
+        if rng is not None:
+            forms = rng.sample(forms, 3)
+        bounds.extend(forms)
+    bounds.extend(["0s", f"{(w1 - w0) // 1000 + 1}us", "-0ns", ranges[-1][1]])
+    odd = ["", f" {ranges[0][0] - w0} ns", f"{(ranges[-1][0] - w0) // 1000}us\n", "1.5.2us", "abc", "1ns 1us", "5", "1us ", ".5ms", "1e3ns"]
+    out = []
+    for a, b in itertools.product(bounds, bounds):
+        out.append(["get", a, b])
+    for o in odd:
+        out.append(["get", o, None])
+        out.append(["get", None, o])
+    out.append(["getstep", None, None])
+    out.append(["getstep", ranges[0][0], ranges[-1][1]])
+    out.append(["scalar", ranges[0][0]])
+    out.append(["scalar", 0])
+    if rng is not None and len(out) > 30:
+        out = rng.sample(out, 30)
+    return out
 
 
 def float_crop_cases(quick, rng):
@@ -817,4 +944,29 @@ def extra_coverage(results):
         kinds[r["case"]["kind"]] = kinds.get(r["case"]["kind"], 0) + 1
         for o in r["case"]["program"]:
             opsn[o[0]] = opsn.get(o[0], 0) + 1
-    return {"outcomes": outcomes, "operations": opsn, "object_kinds": kinds}
+    # branches of Kymo.__getitem__ as the user calls it, and whether the window invariant the theorems assume
+    # (every line inside [start, stop), lines in order and not overlapping) holds on the real objects
+    branches, wf = {}, {"holds": 0, "fails": 0, "not-applicable": 0}
+    for r in results:
+        prog = r["case"]["program"]
+        if r["case"]["kind"] != "kymo":
+            continue
+        a = r["impl"][0]
+        if prog and prog[-1][0] in ("get", "getstep", "scalar"):
+            o = prog[-1]
+            kinds_ = "+".join("None" if b is None else ("string" if isinstance(b, str) else "timestamp") for b in o[1:3]) if o[0] != "scalar" else "-"
+            key = f"{o[0]}[{kinds_}] -> " + ("view" if a.startswith("view") else a.split(" ")[0])
+            branches[key] = branches.get(key, 0) + 1
+        f = fields(a)
+        if f is None or f.get("ranges") in (None, "undefined") or any(o[0] == "flip" for o in prog):
+            wf["not-applicable"] += 1
+            continue
+        rs = [tuple(int(x) for x in t.split(":")) for t in f["ranges"].strip("[]").split(",") if t]
+        if rs and rs[-1][0] <= 0:
+            wf["not-applicable"] += 1  # unfinished last line whose first shown pixel was never acquired
+            continue
+        ok = all(a0 < b0 for a0, b0 in rs) and all(rs[i][1] <= rs[i + 1][0] for i in range(len(rs) - 1)) and \
+            (not rs or (int(f["start"]) <= rs[0][0] and rs[-1][1] <= int(f["stop"])))
+        wf["holds" if ok else "fails"] += 1
+    return {"outcomes": outcomes, "operations": opsn, "object_kinds": kinds, "getitem_branches": branches,
+            "window_invariant_KWf_on_real_views": wf}
